@@ -81,6 +81,23 @@ PROPERTIES = {
                         "from the per-call contracts by induction over calls; the induction is not mechanised)",
                         "composition clause of add() on the overflow-eviction path", "capacities other than 1..256 powers of two"],
     },
+    "C11": {
+        "claim": "Proof for NackGenerator (the receiver's loss detector) under a class invariant established by __init__ and "
+                 "preserved by add/truncate: every tracked sequence number lies 1..128 positions behind the highest one seen, "
+                 "in 16-bit serial arithmetic (so a NACK never exceeds the 128-packet retransmission history); add() returns "
+                 "whether the packet revealed a gap, never requests a packet that was received, and leaves exactly: what was "
+                 "missing before plus the numbers skipped by a forward jump, minus the packet itself, restricted to the history "
+                 "window; truncate() drops exactly the numbers more than 128 behind; both terminate and raise nothing for any "
+                 "16-bit sequence number, including across the wrap. Reduced: the closed loop (request, retransmission, "
+                 "delivery) and the decoder path are not decided; frame integrity in the jitter buffer is C10's check.",
+        "note": "|missing| <= 128 follows from the invariant by the pigeonhole principle (the map s -> (max_seq - s) % 65536 is "
+                "injective into 1..128); that cardinality step is not mechanised. RTCRtpSender._retransmit and the RTX path "
+                "are not under contract.",
+        "design_ref": "DESIGN.md 4.11, 9",
+        "trusted_base": COMMON,
+        "not_decided": ["eventual recovery of every lost packet (liveness)", "RTCRtpSender._retransmit / RTX wrapping",
+                        "cardinality step |missing| <= 128 from the invariant", "decoder thread hand-off"],
+    },
     "C15": {
         "claim": "Proof that every integer bitrate in [0, 2^64) with up to 255 32-bit SSRCs is encodable by pack_remb_fci "
                  "and decodes to the listed SSRCs exactly, with mantissa*2^exp <= bitrate. Reduced: rate.py (estimator, "
@@ -142,7 +159,6 @@ NOT_APPLICABLE = {
     "C04": "OpenSSL handshake, key export and libsrtp are external C code; the repo-owned fingerprint comparison contract was not built (DESIGN 4.4)",
     "C06": _NOT_BUILT + " (_maybe_abandon/_update_advanced_peer_ack_point/prune_chunks; F-15 stays unreported by any check)",
     "C09": "SDP parse/serialise is string/regex code; no contract within reach of the installed solvers decides the round trip (DESIGN 4.9)",
-    "C11": _NOT_BUILT + " (NackGenerator, _retransmit, RTX); closed-loop recovery is outside contracts (DESIGN 4.11)",
     "C12": _NOT_BUILT + " (RtpRouter; dict/set-heavy code, DESIGN 4.12)",
     "C13": _NOT_BUILT + " (DCEP codec, _setReadyState, bufferedAmount accounting; F-16 stays unreported by any check)",
     "C14": _NOT_BUILT + " (JSEP projection of setLocal/RemoteDescription, DESIGN 4.14)",
